@@ -21,7 +21,7 @@ CONSTANTS FileLen,      \* number of payload cells in the stream
           Ranges,       \* the (start, end) ranges clients may ask for
           MaxCalls, MaxFaults, MaxIntr,
           Variant       \* "code" | "insert_before_read" | "key_by_start" | "no_seek" | "read_not_exact"
-                        \*        | "no_length_guard" | "eager_read" | "lazy_seek"
+                        \*        | "no_length_guard" | "eager_read" | "lazy_seek" | "evict_on_pressure"
 
 File == [i \in 1..FileLen |-> (i * 37 + 5) % 251]
 Slice(s, e) == [i \in 1..(e - s) |-> File[s + i]]         \* bytes [s, e), needs e <= FileLen
@@ -37,14 +37,17 @@ VARIABLES cache,      \* (s,e) -> bytes
           nfaults, nintr, ncalls,
           heapMax,    \* ghost: largest allocation of the current call
           io,         \* ghost: offsets read during the current call
+          pend,       \* ranges the accessor in progress still has to load (symbol_table: symtab then strtab, ...)
+          need,       \* ranges the accessor will fetch with get_bytes once everything is loaded
+          panicked,   \* get_bytes did not find a range that load_bytes had reported loaded (the expect() in :703-707)
           hist        \* ghost: the behaviour so far, for replay on the implementation
 
-vars == <<cache, pc, cur, buf, pos, bel, res, faulted, nfaults, nintr, ncalls, heapMax, io, hist>>
-view == <<cache, pc, cur, buf, pos, bel, res, faulted, nfaults, nintr, ncalls, heapMax, io>>
+vars == <<cache, pc, cur, buf, pos, bel, res, faulted, nfaults, nintr, ncalls, heapMax, io, pend, need, panicked, hist>>
+view == <<cache, pc, cur, buf, pos, bel, res, faulted, nfaults, nintr, ncalls, heapMax, io, pend, need, panicked>>
 
 Init == /\ cache = [x \in {} |-> <<>>] /\ pc = "idle" /\ cur = <<0, 0>> /\ buf = <<>> /\ pos = 0 /\ bel = 0
         /\ res = [ok |-> TRUE, data |-> <<>>] /\ faulted = FALSE /\ nfaults = 0 /\ nintr = 0 /\ ncalls = 0
-        /\ heapMax = 0 /\ io = {} /\ hist = <<>>
+        /\ heapMax = 0 /\ io = {} /\ pend = <<>> /\ need = {} /\ panicked = FALSE /\ hist = <<>>
 
 Step(s) == hist' = IF hist = <<>> THEN hist ELSE [hist EXCEPT ![Len(hist)].steps = Append(@, s)]
 NoStep == UNCHANGED hist
@@ -53,9 +56,31 @@ Hit(r) == IF Variant = "key_by_start" THEN \E k \in DOMAIN cache : k[1] = r[1] E
 HitData(r) == IF Variant = "key_by_start" THEN cache[CHOOSE k \in DOMAIN cache : k[1] = r[1]] ELSE cache[r]
 
 \* a client call enters load_bytes
+\* where a load of range r starts: cache hit, rejected past the end, or the seek
+Enter(r) == IF Hit(r) THEN "ret" ELSE IF r[2] > FileLen /\ Variant # "no_length_guard" THEN "ret"
+            ELSE IF Variant = "lazy_seek" /\ bel = r[1] THEN "alloc" ELSE "seek"
+EnterRes(r) == IF Hit(r) THEN [ok |-> TRUE, data |-> HitData(r)]
+               ELSE IF r[2] > FileLen /\ Variant # "no_length_guard" THEN [ok |-> FALSE, data |-> <<>>] ELSE res
+
+\* an accessor that loads two ranges before using both (symbol_table, symbol_version_table, ...)
+Call2(r1, r2) ==
+    /\ pc = "idle" /\ ncalls < MaxCalls
+    /\ cur' = r1 /\ faulted' = FALSE /\ heapMax' = 0 /\ io' = {} /\ buf' = <<>>
+    /\ pend' = <<r2>> /\ need' = {r1, r2}
+    /\ hist' = Append(hist, [r |-> r1, r2 |-> r2, steps |-> <<>>])
+    /\ res' = EnterRes(r1) /\ pc' = Enter(r1)
+    /\ UNCHANGED <<cache, pos, bel, nfaults, nintr, ncalls, panicked>>
+\* the first load succeeded: go on with the next range of the same accessor
+Chain ==
+    /\ pc = "ret" /\ pend # <<>> /\ res.ok
+    /\ cur' = Head(pend) /\ pend' = Tail(pend) /\ buf' = <<>>
+    /\ res' = EnterRes(Head(pend)) /\ pc' = Enter(Head(pend)) /\ NoStep
+    /\ UNCHANGED <<cache, pos, bel, faulted, nfaults, nintr, ncalls, heapMax, io, need, panicked>>
+
 Call(r) ==
     /\ pc = "idle" /\ ncalls < MaxCalls
     /\ cur' = r /\ faulted' = FALSE /\ heapMax' = 0 /\ io' = {} /\ buf' = <<>>
+    /\ pend' = <<>> /\ need' = {r} /\ UNCHANGED panicked
     /\ hist' = Append(hist, [r |-> r, steps |-> <<>>])
     /\ IF Hit(r) THEN /\ res' = [ok |-> TRUE, data |-> HitData(r)] /\ pc' = "ret"              \* :711-713
        ELSE IF r[2] > FileLen /\ Variant # "no_length_guard"
@@ -68,11 +93,11 @@ Call(r) ==
 SeekOk == /\ pc = "seek"
           /\ pos' = IF Variant = "no_seek" THEN pos ELSE cur[1]                                   \* :721
           /\ pc' = "alloc" /\ Step("seek_ok")
-          /\ UNCHANGED <<bel, cache, cur, buf, res, faulted, nfaults, nintr, ncalls, heapMax, io>>
+          /\ UNCHANGED <<pend, need, panicked, bel, cache, cur, buf, res, faulted, nfaults, nintr, ncalls, heapMax, io>>
 SeekFail == /\ pc = "seek" /\ nfaults < MaxFaults
             /\ nfaults' = nfaults + 1 /\ faulted' = TRUE
             /\ res' = [ok |-> FALSE, data |-> <<>>] /\ pc' = "ret" /\ Step("seek_fail")
-            /\ UNCHANGED <<bel, cache, cur, buf, pos, nintr, ncalls, heapMax, io>>
+            /\ UNCHANGED <<pend, need, panicked, bel, cache, cur, buf, pos, nintr, ncalls, heapMax, io>>
 
 Alloc == /\ pc = "alloc"
          /\ heapMax' = cur[2] - cur[1]                                                             \* :722 vec![0; len]
@@ -82,7 +107,7 @@ Alloc == /\ pc = "alloc"
                      ELSE cache
          /\ pc' = IF cur[2] = cur[1] THEN "insert" ELSE "read"
          /\ NoStep
-         /\ UNCHANGED <<bel, cur, pos, res, faulted, nfaults, nintr, ncalls, io>>
+         /\ UNCHANGED <<pend, need, panicked, bel, cur, pos, res, faulted, nfaults, nintr, ncalls, io>>
 
 Remaining == (cur[2] - cur[1]) - Len(buf)
 \* read_exact: the reader hands over k bytes, 1 <= k <= remaining (and no more than the stream holds)
@@ -93,42 +118,52 @@ ReadChunk(k) ==
     /\ pos' = pos + k
     /\ pc' = IF k = Remaining \/ Variant = "read_not_exact" THEN "insert" ELSE "read"
     /\ Step(k)
-    /\ UNCHANGED <<bel, cache, cur, res, faulted, nfaults, nintr, ncalls, heapMax>>
+    /\ UNCHANGED <<pend, need, panicked, bel, cache, cur, res, faulted, nfaults, nintr, ncalls, heapMax>>
 \* the eager design reads the rest of the stream along with the first chunk
 EagerRead ==
     /\ Variant = "eager_read" /\ pc = "read" /\ io = {} /\ Remaining >= 1 /\ pos + Remaining <= FileLen
     /\ buf' = buf \o Slice(pos, pos + Remaining)
     /\ io' = 1..FileLen
     /\ pos' = FileLen /\ pc' = "insert" /\ Step(Remaining)
-    /\ UNCHANGED <<bel, cache, cur, res, faulted, nfaults, nintr, ncalls, heapMax>>
+    /\ UNCHANGED <<pend, need, panicked, bel, cache, cur, res, faulted, nfaults, nintr, ncalls, heapMax>>
 ReadInterrupted ==                                   \* ErrorKind::Interrupted: read_exact retries
     /\ pc = "read" /\ nintr < MaxIntr
     /\ nintr' = nintr + 1 /\ Step("intr")
-    /\ UNCHANGED <<bel, cache, pc, cur, buf, pos, res, faulted, nfaults, ncalls, heapMax, io>>
+    /\ UNCHANGED <<pend, need, panicked, bel, cache, pc, cur, buf, pos, res, faulted, nfaults, ncalls, heapMax, io>>
 ReadErr ==
     /\ pc = "read" /\ nfaults < MaxFaults
     /\ nfaults' = nfaults + 1 /\ faulted' = TRUE
     /\ res' = [ok |-> FALSE, data |-> <<>>] /\ pc' = "ret" /\ Step("err")                         \* '?' on read_exact
-    /\ UNCHANGED <<bel, cache, cur, buf, pos, nintr, ncalls, heapMax, io>>
+    /\ UNCHANGED <<pend, need, panicked, bel, cache, cur, buf, pos, nintr, ncalls, heapMax, io>>
 ReadEof ==                                           \* Ok(0) before the range is complete -> UnexpectedEof
     /\ pc = "read" /\ (nfaults < MaxFaults \/ pos >= FileLen)
     /\ nfaults' = IF pos >= FileLen THEN nfaults ELSE nfaults + 1
     /\ faulted' = TRUE
     /\ res' = [ok |-> FALSE, data |-> <<>>] /\ pc' = "ret" /\ Step("eof")
-    /\ UNCHANGED <<bel, cache, cur, buf, pos, nintr, ncalls, heapMax, io>>
+    /\ UNCHANGED <<pend, need, panicked, bel, cache, cur, buf, pos, nintr, ncalls, heapMax, io>>
 
+RECURSIVE SumLen(_)
+SumLen(S) == IF S = {} THEN 0 ELSE LET k == CHOOSE x \in S : TRUE IN Len(cache[k]) + SumLen(S \ {k})
+CachedBytes == SumLen(DOMAIN cache)
 Insert == /\ pc = "insert"
-          /\ cache' = [k \in (DOMAIN cache) \cup {cur} |-> IF k = cur THEN buf ELSE cache[k]]     \* :724
+          /\ cache' = IF Variant = "evict_on_pressure" /\ CachedBytes + Len(buf) > FileLen
+                      THEN [k \in {cur} |-> buf]                                               \* "start over" under pressure
+                      ELSE [k \in (DOMAIN cache) \cup {cur} |-> IF k = cur THEN buf ELSE cache[k]]     \* :724
           /\ res' = [ok |-> TRUE, data |-> buf] /\ pc' = "ret" /\ NoStep
           /\ bel' = cur[2]                                                                         \* position after a complete read
-          /\ UNCHANGED <<cur, buf, pos, faulted, nfaults, nintr, ncalls, heapMax, io>>
+          /\ UNCHANGED <<pend, need, panicked, cur, buf, pos, faulted, nfaults, nintr, ncalls, heapMax, io>>
 
-Return == /\ pc = "ret"
+\* the accessor returns: after a failed load at once, otherwise after fetching every range it loaded (get_bytes)
+Return == /\ pc = "ret" /\ (pend = <<>> \/ ~res.ok)
+          /\ panicked' = (panicked \/ (res.ok /\ \E r \in need : ~Hit(r)))
+          /\ pend' = <<>> /\ UNCHANGED need
           /\ ncalls' = ncalls + 1 /\ pc' = "idle"
           /\ hist' = [hist EXCEPT ![Len(hist)] = @ @@ [ok |-> res.ok, faulted |-> faulted]]
           /\ UNCHANGED <<bel, cache, cur, buf, pos, res, faulted, nfaults, nintr, heapMax, io>>
 
 Next == \/ \E r \in Ranges : Call(r)
+        \/ \E r1, r2 \in Ranges : r1 # r2 /\ Call2(r1, r2)
+        \/ Chain
         \/ SeekOk \/ SeekFail \/ Alloc
         \/ \E k \in 1..FileLen : ReadChunk(k)
         \/ EagerRead \/ ReadInterrupted \/ ReadErr \/ ReadEof \/ Insert \/ Return
@@ -146,13 +181,15 @@ ResultOk == pc = "ret" =>
               /\ (~faulted /\ InFile(cur)) => res.ok                          \* C07: legal reader behaviour is invisible
               /\ ~InFile(cur) => ~res.ok                                      \* oversized requests are errors
 AllocBound == heapMax <= FileLen                                              \* C08
-Lazy == io \subseteq ((cur[1] + 1)..cur[2])                                   \* C08: only designated bytes are read
+Lazy == io \subseteq UNION { ((r[1] + 1)..r[2]) : r \in need }                       \* C08: only designated bytes are read
 TypeOk == pc \in {"idle", "seek", "alloc", "read", "insert", "ret"} /\ Len(buf) <= FileLen + 2
 
 \* every call eventually returns (no livelock on Interrupted within its budget)
 Terminates == (pc # "idle") ~> (pc = "idle")
 
 Emit == (pc = "idle" /\ ncalls = MaxCalls) => PrintT(ToJson([file |-> File, calls |-> hist]))
-Inv == TypeOk /\ CacheSound /\ ResultOk /\ AllocBound /\ Lazy
+\* a range reported loaded is still there when the accessor fetches it (C08: the stream parser never panics)
+NoPanic == ~panicked
+Inv == TypeOk /\ CacheSound /\ ResultOk /\ AllocBound /\ Lazy /\ NoPanic
 InvEmit == Inv /\ Emit
 =============================================================================
